@@ -320,10 +320,40 @@ class _Rename(ast.NodeTransformer):
 # ---------------------------------------------------------------------------------------------
 
 class ModuleInliner:
-    def __init__(self, modname: str, tree: ast.Module, known: Set[str]):
+    def __init__(self, modname: str, tree: ast.Module, known: Set[str], pkg: Optional[Dict[str, "ModuleInliner"]] = None, is_pkg: bool = False):
         self.modname = modname
         self.tree = tree
         self.known = known
+        self.pkg = pkg if pkg is not None else {}
+        self.is_pkg = is_pkg
+        # local name -> (absolute module, original name or None for `import module`)
+        self.imports: Dict[str, Tuple[str, Optional[str]]] = {}
+        parts = modname.split(".")
+        for n in ast.walk(tree):
+            if isinstance(n, ast.ImportFrom):
+                if n.level:
+                    base = parts if is_pkg else parts[:-1]
+                    if n.level > 1:
+                        base = base[: len(base) - (n.level - 1)]
+                    mod = ".".join(base + ([n.module] if n.module else []))
+                else:
+                    mod = n.module or ""
+                for a in n.names:
+                    self.imports[a.asname or a.name] = (mod, a.name)
+            elif isinstance(n, ast.Import):
+                for a in n.names:
+                    self.imports[a.asname or a.name.split(".")[0]] = (a.name if a.asname else a.name.split(".")[0], None)
+        self.module_bound = set(self.imports)
+        for st in tree.body:
+            if isinstance(st, (ast.FunctionDef, ast.AsyncFunctionDef, ast.ClassDef)):
+                self.module_bound.add(st.name)
+            elif isinstance(st, ast.Assign):
+                for t in st.targets:
+                    for x in ast.walk(t):
+                        if isinstance(x, ast.Name):
+                            self.module_bound.add(x.id)
+            elif isinstance(st, ast.AnnAssign) and isinstance(st.target, ast.Name):
+                self.module_bound.add(st.target.id)
         self.counter = 0
         self.log: List[str] = []
         self.defs = enumerate_defs(modname, tree)
@@ -349,6 +379,13 @@ class ModuleInliner:
             for d in self.new:
                 if d.kind == "module" and d.node.name == f.id:
                     return d, None, False
+            # a new helper of another signac module, imported by name
+            imp = self.imports.get(f.id)
+            if imp and imp[1] and imp[0] in self.pkg and imp[0] != self.modname:
+                other = self.pkg[imp[0]]
+                for d in other.new:
+                    if d.kind == "module" and d.node.name == imp[1] and self._foreign_ok(d, other):
+                        return d, None, False
             return None
         if isinstance(f, ast.Attribute):
             top = caller
@@ -382,6 +419,58 @@ class ModuleInliner:
                         return d, recv, True
                     return None
         return None
+
+    def _owner(self, d: Def) -> "ModuleInliner":
+        for m in self.pkg.values():
+            if any(d is x for x in m.defs):
+                return m
+        return self
+
+    def _foreign_ok(self, d: Def, other: "ModuleInliner") -> bool:
+        """The module-level names the foreign helper uses mean the same thing here (same import / imported from its module), or can be imported."""
+        import builtins
+        stored = _stored_names(d.node)
+        free = {n.id for st in d.node.body for n in ast.walk(st) if isinstance(n, ast.Name)} - stored - set(dir(builtins))
+        todo = []
+        for nm in sorted(free):
+            if nm not in other.module_bound:
+                continue  # not a module-level name of the helper's module (builtin-like or undefined): leave
+            src = other.imports.get(nm)
+            mine = self.imports.get(nm)
+            if src is not None:
+                if mine == src:
+                    continue
+                if nm in self.module_bound:
+                    return False
+                todo.append(("import", nm, src))
+            else:
+                want = (other.modname, nm)
+                if mine == want:
+                    continue
+                if nm in self.module_bound:
+                    return False
+                todo.append(("import", nm, want))
+        d_todo = getattr(self, "_pending_imports", {})
+        d_todo[id(d)] = todo
+        self._pending_imports = d_todo
+        return True
+
+    def _apply_pending_imports(self, d: Def):
+        for (_k, nm, (mod, orig)) in getattr(self, "_pending_imports", {}).get(id(d), []):
+            if nm in self.module_bound:
+                continue
+            if orig is None:
+                node = ast.Import(names=[ast.alias(name=mod, asname=None if mod.split(".")[0] == nm and "." not in mod else nm)])
+            else:
+                node = ast.ImportFrom(module=mod, names=[ast.alias(name=orig, asname=None if orig == nm else nm)], level=0)
+            node.lineno = node.end_lineno = 1
+            node.col_offset = node.end_col_offset = 0
+            pos = 1 if (self.tree.body and isinstance(self.tree.body[0], ast.Expr) and isinstance(getattr(self.tree.body[0], "value", None), ast.Constant)
+                        and isinstance(self.tree.body[0].value.value, str)) else 0
+            self.tree.body.insert(pos, node)
+            self.imports[nm] = (mod, orig)
+            self.module_bound.add(nm)
+            self.log.append(f"{self.modname}: import of {nm} from {mod} added for an expanded helper")
 
     # -- eligibility ---------------------------------------------------------
     def _eligible(self, d: Def) -> bool:
@@ -699,7 +788,11 @@ class ModuleInliner:
             new = [s for s in new if s is not None] or [ast.copy_location(ast.Pass(), st)]
             for s in new:
                 ast.fix_missing_locations(s)
-            self.expanded[id(d)] = self.expanded.get(id(d), 0) + 1
+            owner = self._owner(d)
+            owner.expanded[id(d)] = owner.expanded.get(id(d), 0) + 1
+            if owner is not self:
+                self._apply_pending_imports(d)
+                self.expanded[id(d)] = self.expanded.get(id(d), 0) + 1
             self.log.append(f"{caller.qual} <- {d.qual} ({form})")
             return new
         except Bail as e:
@@ -784,6 +877,10 @@ class ModuleInliner:
                 if any(inner & _all_names(a) for a in bound.values()):
                     return node
                 new = _Rename({}, bound).visit(copy.deepcopy(e))
+                owner = outer._owner(d)
+                if owner is not outer:
+                    outer._apply_pending_imports(d)
+                    owner.expanded[id(d)] = owner.expanded.get(id(d), 0) + 1
                 outer.expanded[id(d)] = outer.expanded.get(id(d), 0) + 1
                 outer.log.append(f"{caller.qual} <- {d.qual} (expression)")
                 return ast.copy_location(new, node)
@@ -1082,7 +1179,7 @@ class ModuleInliner:
         self._renest_moved()
         self._nest_value_refs()
         self._inline_new_constants()
-        if not self.new:
+        if not self.new and not any(m.new for m in self.pkg.values()):
             return self.tree
         # callers: every function of the module (new helpers first, so that helper-in-helper chains resolve inside-out)
         order = [d for d in self.defs if d in self.new] + [d for d in self.defs if d not in self.new]
@@ -1093,6 +1190,10 @@ class ModuleInliner:
                 caller.node.body = self._process_block(caller.node.body, caller)
             if sum(self.expanded.values()) == before:
                 break
+        return self.tree
+
+    def finish(self) -> ast.Module:
+        """after all modules were expanded: tidy and drop helpers without remaining references (in any module)"""
         # tidy: `else: pass` left behind by the conversion
         for n in ast.walk(self.tree):
             if isinstance(n, (ast.If, ast.Try, ast.For, ast.While)) and getattr(n, "orelse", None) and all(isinstance(x, ast.Pass) for x in n.orelse):
@@ -1112,11 +1213,33 @@ class ModuleInliner:
                     refs += 1
             # references inside the helper itself do not count
             own = sum(1 for n in ast.walk(d.node) if (isinstance(n, ast.Name) and n.id == name) or (isinstance(n, ast.Attribute) and n.attr == name))
+            # uses from other modules (by imported name) that were not expanded
+            if d.kind == "module":
+                for m in self.pkg.values():
+                    if m is self:
+                        continue
+                    loc = [ln for ln, (mod, orig) in m.imports.items() if mod == self.modname and orig == name]
+                    for ln in loc:
+                        refs += sum(1 for n in ast.walk(m.tree) if isinstance(n, ast.Name) and n.id == ln and isinstance(n.ctx, ast.Load))
+                    refs += sum(1 for n in ast.walk(m.tree) if isinstance(n, ast.Attribute) and n.attr == name and isinstance(n.value, ast.Name)
+                                and m.imports.get(n.value.id, (None, 1))[0] == self.modname and m.imports.get(n.value.id, (None, 1))[1] is None)
             if refs - own <= 0 and d.node in d.container:
                 d.container.remove(d.node)
                 if not d.container:
                     d.container.append(ast.copy_location(ast.Pass(), d.node))
                 self.log.append(f"removed {d.qual}")
+                # the name is gone: imports of it elsewhere go too
+                if d.kind == "module":
+                    for m in self.pkg.values():
+                        if m is self:
+                            continue
+                        for n in ast.walk(m.tree):
+                            if isinstance(n, ast.ImportFrom):
+                                keep = [a for a in n.names if not (m.imports.get(a.asname or a.name) == (self.modname, name))]
+                                if len(keep) != len(n.names):
+                                    n.names = keep or [ast.alias(name="__name__", asname="_unused_import")]
+                                    if not keep:
+                                        n.module, n.level = "builtins", 0
         return self.tree
 
 
@@ -1132,11 +1255,35 @@ def _walk_loop_level(loop):
 
 
 def inline_new_helpers(modname: str, tree: ast.Module, known: Optional[Set[str]]) -> Tuple[ast.Module, List[str]]:
+    """single module (used by the self-test)"""
     if known is None:
         return tree, []
     inl = ModuleInliner(modname, tree, known)
+    inl.pkg = {modname: inl}
     try:
-        tree = inl.run()
+        inl.run()
+        tree = inl.finish()
     except RecursionError:
         pass
     return tree, inl.log
+
+
+def inline_package(trees: Dict[str, Tuple[ast.Module, bool]], known: Optional[Set[str]]) -> Tuple[Dict[str, ast.Module], List[str]]:
+    """all modules of the package together: helpers that do not exist on the reference tree are expanded into their callers, also across modules.
+    trees: module name -> (tree, is_package_init)"""
+    if known is None:
+        return {k: v[0] for k, v in trees.items()}, []
+    pkg: Dict[str, ModuleInliner] = {}
+    for name, (tree, is_pkg) in trees.items():
+        pkg[name] = ModuleInliner(name, tree, known, pkg, is_pkg)
+    log: List[str] = []
+    try:
+        for m in pkg.values():
+            m.run()
+        for m in pkg.values():
+            m.finish()
+    except RecursionError:
+        pass
+    for m in pkg.values():
+        log += m.log
+    return {k: m.tree for k, m in pkg.items()}, log
